@@ -10,6 +10,64 @@ fn main() {
             println!("patronus: {}", if r.is_some() { "accepted" } else { "rejected" });
             println!("reference: {:?}", vharness::refsem::btor2_ref::B2::load(&text).map(|_| "accepted"));
         }
-        _ => eprintln!("usage: probe btor2 <file>"),
+        Some("selftest") => selftest(args.get(2).and_then(|s| s.parse().ok()).unwrap_or(2000)),
+        _ => eprintln!("usage: probe btor2 <file> | probe selftest [terms per operator]"),
     }
+}
+
+/// cross-checks the reference semantics R1 (through the R6 evaluator) against z3 on random ground terms
+fn selftest(per_op: usize) {
+    use std::io::{BufRead, BufReader, Write};
+    use vharness::refsem::bv::Bv;
+    use vharness::refsem::smt::*;
+    use vharness::util::Rng;
+    use vharness::wl::expr::lit_shape;
+    let mut z3 = std::process::Command::new("/usr/bin/z3").arg("-in").stdin(std::process::Stdio::piped()).stdout(std::process::Stdio::piped()).spawn().expect("z3");
+    let mut zin = z3.stdin.take().unwrap();
+    let mut zout = BufReader::new(z3.stdout.take().unwrap());
+    let mut rng = Rng::new(7);
+    let bin = [Op::BvAnd, Op::BvOr, Op::BvXor, Op::BvAdd, Op::BvSub, Op::BvMul, Op::BvUdiv, Op::BvUrem, Op::BvSdiv, Op::BvSrem, Op::BvSmod, Op::BvShl, Op::BvLshr, Op::BvAshr, Op::BvUlt, Op::BvUle, Op::BvUgt, Op::BvUge, Op::BvSlt, Op::BvSle, Op::BvSgt, Op::BvSge, Op::Concat, Op::Eq];
+    let (mut n, mut bad) = (0u64, 0u64);
+    let lit = |rng: &mut Rng, w: u32| Term::Lit(SVal::Bv(Bv::new(w, lit_shape(rng, w))));
+    let scope = Scope::new();
+    let model = Model::new();
+    let mut check = |t: Term, n: &mut u64, bad: &mut u64| {
+        let want = Evaluator::new(&scope, &model).eval(&t).unwrap();
+        writeln!(zin, "(simplify {})", show_term(&t)).unwrap();
+        zin.flush().unwrap();
+        let mut line = String::new();
+        zout.read_line(&mut line).unwrap();
+        let got = parse_sexprs(line.trim()).ok().and_then(|s| s.first().cloned()).and_then(|s| parse_term(&s).ok());
+        *n += 1;
+        match got {
+            Some(Term::Lit(v)) if v == want => {}
+            other => {
+                *bad += 1;
+                if *bad < 10 {
+                    println!("MISMATCH {} : reference {} z3 {:?}", show_term(&t), want.show(), other);
+                }
+            }
+        }
+    };
+    for op in bin.iter() {
+        for _ in 0..per_op {
+            let w = *rng.pick(&[1u32, 2, 3, 4, 7, 8, 16, 31, 32, 33, 63, 64, 65, 128, 129]);
+            let (a, b) = (lit(&mut rng, w), lit(&mut rng, w));
+            check(Term::App(op.clone(), vec![a, b]), &mut n, &mut bad);
+        }
+    }
+    for _ in 0..per_op {
+        let w = *rng.pick(&[1u32, 2, 5, 8, 33, 64, 65, 129]);
+        let a = lit(&mut rng, w);
+        let lo = rng.below(w as u64) as u32;
+        let hi = rng.range(lo as u64, w as u64 - 1) as u32;
+        check(Term::App(Op::Extract(hi, lo), vec![a.clone()]), &mut n, &mut bad);
+        check(Term::App(Op::ZeroExt(rng.below(70) as u32), vec![a.clone()]), &mut n, &mut bad);
+        check(Term::App(Op::SignExt(rng.below(70) as u32), vec![a.clone()]), &mut n, &mut bad);
+        check(Term::App(Op::BvNot, vec![a.clone()]), &mut n, &mut bad);
+        check(Term::App(Op::BvNeg, vec![a]), &mut n, &mut bad);
+    }
+    println!("selftest: {n} ground terms compared with z3, {bad} mismatches");
+    let _ = writeln!(zin, "(exit)");
+    std::process::exit(if bad == 0 { 0 } else { 1 });
 }
